@@ -459,6 +459,7 @@ def _format_segment(seg: Segment, part_values: PartValues) -> FormatedSeg:
 def _format_segment_tree(
     segtree    : SegmentTree,
     part_values: PartValues,
+    is_root    : bool = False,
 ) -> FormatedSeg:
     # NOTE (mb 2020-10-02): starting from the right, if there is any non-zero
     #   part, all further parts going left will be used. In other words, a part
@@ -477,7 +478,10 @@ def _format_segment_tree(
             is_zero = is_zero and formatted_seg.is_zero
             result_parts.append(formatted_seg.result)
 
-    result = "" if is_zero else "".join(result_parts)
+    # NOTE: Only optional segments are omitted. The root of the tree is the whole
+    #   pattern, it is rendered even if all of its parts are zero (e.g. "0.0.0").
+    is_omitted = is_zero and not is_root
+    result     = "" if is_omitted else "".join(result_parts)
     return FormatedSeg(False, is_zero, result)
 
 
@@ -569,7 +573,7 @@ def format_version(vinfo: version.V2VersionInfo, raw_pattern: str) -> str:
     """
     part_values   = _format_part_values(vinfo)
     segtree       = _parse_segtree(raw_pattern)
-    formatted_seg = _format_segment_tree(segtree, part_values)
+    formatted_seg = _format_segment_tree(segtree, part_values, is_root=True)
     return formatted_seg.result
 
 
